@@ -16,7 +16,14 @@ REQUIRED = ['getNBest_perm', 'getNBest_rename', 'mem_getNBest_iff', 'symmetric_c
             'quota_distributor_perm', 'quota_distributor_rename', 'largest_remainder_perm', 'largest_remainder_rename',
             'approval_to_simple_perm', 'approval_to_simple_rename', 'ranked_to_positional_perm', 'ranked_to_positional_rename',
             'ranked_to_condorcet_perm', 'positional_rule_perm', 'positional_rule_rename', 'approval_rule_perm',
-            'approval_rule_rename']
+            'approval_rule_rename',
+            'positional_symmetric_candidates', 'approval_symmetric_candidates', 'largest_remainder_symmetric_parties',
+            'ha_symmetric_parties',
+            'copeland_perm', 'minimax_perm', 'schulze_perm', 'condorcet_winner_perm', 'smith_set_perm', 'schwartz_set_perm',
+            'copeland_rule_perm', 'minimax_rule_perm', 'schulze_rule_perm', 'condorcet_winner_rule_perm', 'smith_rule_perm',
+            'schwartz_rule_perm', 'ranked_to_condorcet_rename',
+            'spav_perm', 'pav_perm', 'score_convert_perm', 'score_voting_perm', 'spav_rename', 'pav_rename', 'score_voting_rename',
+            'score_voting_rename_same']
 _LR = ['hare', 'hagenbach_bischoff', 'imperiali', 'droop', 'hare_rounded', 'hagenbach_bischoff_ceil', 'hagenbach_bischoff_rounded']
 
 
@@ -93,7 +100,7 @@ try:
     UNPROVED = ['perm_rename_invariant_' + n for n in fams() if n not in PROVED_FAMILIES]
 except Exception:
     pass
-REQUIRED_COUNTERS = ['perm', 'rename', 'reverse_sort_rename', 'hashseed', 'modelled', 'symmetric_pair']
+REQUIRED_COUNTERS = ['perm', 'rename', 'reverse_sort_rename', 'hashseed', 'modelled', 'symmetric_pair', 'all_perms', 'symmetric_profile']
 RULE = ('every deterministic evaluator family x generated profiles (2-5 candidates) x 3 permutations of insertion order x 3 bijective '
         'renamings (one reversing string sort order, one to multi-character random names) in-process, and a sample of the cases in '
         'subprocesses under PYTHONHASHSEED in {0,1,2,3,random}; ranked pairs only on profiles whose majorities have pairwise distinct '
@@ -131,8 +138,8 @@ def _distinct_strengths(prof):
 
 def generate(rng, tier):
     F = list(fams().values())
-    per = 8 if tier == 'quick' else 80
-    hs_budget = 90 if tier == 'quick' else 900
+    per = 12 if tier == 'quick' else 300
+    hs_budget = 120 if tier == 'quick' else 1500
     for f in F:
         made = 0
         tries = 0
@@ -155,6 +162,25 @@ def generate(rng, tier):
             made += 1
             yield {'op': 'invariance', 'family': f.name, 'prof': prof, 'n': n, 'perms': perms,
                    'renamings': [r for _, r in rens], 'hashseeds': HASH_SEEDS if hs else [], '_tags': tags}
+    # small scope, exhaustively: ALL orders of presentation of profiles with at most 3 (quick) / 4 (thorough) entries
+    import itertools
+    cap = 3 if tier == 'quick' else 4
+    for f in F:
+        made = 0
+        tries = 0
+        while made < (1 if tier == 'quick' else 8) and tries < 400:
+            tries += 1
+            m = rng.randint(2, 4)
+            prof = fam_mod.gen_profile(rng, f.vtype, m)
+            if not 2 <= len(prof) <= cap:
+                continue
+            if f.name.startswith('condorcet_rankedpairs') and not _distinct_strengths(prof):
+                continue
+            cands = fam_mod.candidates_of(fam_mod.base_vtype(f.vtype), prof)
+            made += 1
+            yield {'op': 'invariance', 'family': f.name, 'prof': prof, 'n': rng.randint(1, max(1, len(cands))),
+                   'perms': [list(q) for q in itertools.permutations(prof)], 'renamings': [r for _, r in _names_variants(rng, max(cands) + 1)],
+                   'hashseeds': [], '_tags': ['perm', 'all_perms']}
     # symmetric pairs: two candidates with identical positions (simple votes)
     for t in range(40 if tier == 'quick' else 400):
         m = rng.randint(2, 6)
@@ -162,6 +188,25 @@ def generate(rng, tier):
         prof[1][1] = prof[0][1]
         yield {'op': 'symmetric', 'prof': prof, 'n': rng.randint(1, m), 'family': rng.choice(['plurality', 'ha_d_hondt', 'ha_sainte_lague', 'lr_hare']),
                '_tags': ['symmetric_pair']}
+    # symmetric pairs in every vote type: the profile is its own image under the transposition of candidates 0 and 1
+    # (every ballot is accompanied by its mirror image with the same weight)
+    swap = lambda m: {i: (1 if i == 0 else 0 if i == 1 else i) for i in range(m)}
+    for f in F:
+        if f.name.startswith('condorcet_rankedpairs'):
+            continue           # mirrored profiles have equal strengths: outside the quantifier of ranked pairs
+        for t in range(2 if tier == 'quick' else 30):
+            m = rng.randint(2, 5)
+            vt = fam_mod.base_vtype(f.vtype)
+            prof = fam_mod.gen_profile(rng, f.vtype, m)
+            mirror = fam_mod.rename(vt, prof, swap(m))
+            merged = {}
+            for b, w in prof + mirror:
+                k = json.dumps(b)
+                merged[k] = merged.get(k, 0) + Fraction(w)
+            sym = [[json.loads(k), num_str(w)] for k, w in merged.items()]
+            cands = fam_mod.candidates_of(vt, sym)
+            yield {'op': 'symmetric', 'prof': sym, 'n': rng.randint(1, max(1, len(cands))), 'family': f.name,
+                   '_tags': ['symmetric_pair', 'symmetric_profile']}
 
 
 _HS_CACHE = {}
@@ -223,7 +268,9 @@ def oracle(case, obs):
         else:
             ia = a in obs
             ib = b in obs
-            if ia != ib:
+            ta = any(isinstance(x, dict) and a in x.get('tie', []) for x in obs)
+            tb = any(isinstance(x, dict) and b in x.get('tie', []) for x in obs)
+            if ia != ib or ta != tb:
                 out.append(('symmetric_candidates_treated_differently', str(obs)))
         return out
     base = _multiset(f.kind, obs['base'])
@@ -252,24 +299,60 @@ def nontrivial(case, obs):
     return not (isinstance(obs['base'], dict) and 'err' in obs['base'])
 
 
+def _variant(case):
+    """which presentation the Lean model evaluates: a permuted one (2 of 3 cases) or a renamed one (ids permuted by the third
+    renaming, which is a permutation of the base names)"""
+    h = int(hashlib.sha1(json.dumps(case['prof']).encode()).hexdigest()[:6], 16)
+    return 'rename' if h % 3 == 0 else 'perm'
+
+
+def _sigma(case):
+    return {i: int(nm[4:]) for i, nm in enumerate(case['renamings'][2])}
+
+
 def model_line(case):
-    """the Lean models of the proved families evaluate the LAST permutation (a permuted presentation); the answer is compared
-    with the implementation on that presentation"""
+    """the Lean models of the modelled families evaluate a PERMUTED presentation (the last permutation) or a RENAMED one
+    (candidate ids permuted); the answer is compared with the implementation on that same presentation"""
     if case['op'] != 'invariance':
         return None
     m = MODEL.get(case['family'])
     if m is None:
         return None
+    if _variant(case) == 'rename':
+        f = fams().get(case['family'])
+        prof = fam_mod.rename(fam_mod.base_vtype(f.vtype), case['prof'], _sigma(case))
+        return m[0](prof, case['n'])
     return m[0](case['perms'][-1], case['n'])
+
+
+def _unrename(x, inv):
+    if isinstance(x, dict):
+        if set(x.keys()) == {'tie'}:
+            return {'tie': sorted(inv[c] for c in x['tie'])}
+        return x
+    if isinstance(x, list):
+        return [_unrename(v, inv) for v in x]
+    if isinstance(x, int) and not isinstance(x, bool):
+        return inv[x]
+    return x
 
 
 def compare(case, iobs, mobs):
     kind = MODEL[case['family']][1]
-    got = iobs['perms'][-1]
+    if _variant(case) == 'rename':
+        got = iobs['renamed'][2]
+        inv = {v: k for k, v in _sigma(case).items()}
+        if isinstance(mobs, list):
+            if kind == 'dist':
+                mobs = [[_unrename(k, inv), v] for k, v in mobs]      # values are seat counts, not ids
+            else:
+                mobs = _unrename(mobs, inv)
+    else:
+        got = iobs['perms'][-1]
     a = _multiset(kind, got)
     b = _multiset(kind, mobs)
     if a != b:
-        return f'impl={json.dumps(a)} model={json.dumps(b)}'
+        return f'impl={json.dumps(a)} model={json.dumps(b)} ({_variant(case)} presentation)'
     return None
 
 
